@@ -29,7 +29,7 @@ CLAIMED = {
         "schemas with closed alternatives (x << {A, B}) hold in full (C03r_resolved_elim_closed_holds_partial), remaining alternatives always derive from the schema's (across minimize's stale write-back). Partial: wildcard-free schemas (nwild = 0; "
         "C03c_match3_wildcards_unsound shows why marking needs it), resolution depth < 64 (C03r_deep_constraint_unchecked: beyond its match fuel 4*vars+64 the MODEL accepts F^70(x) <= F^70(A) on Unit where the Python code - replayed - raises "
         "ConstraintViolation: model and code are claimed, and compared by a depth family, only below that depth), and fulfilled elimination records left with >= 2 non-closed alternatives by a re-entrant fulfill (neither proved nor refuted: "
-        "0 violations in 3.9 million such records found by search; Props/C03ResolvedElim.lean, C03e_*, 9: reduction to one clause, stability lemmas, and a verified monitor elimHoldsB - exact on resolved elimination records - that the tfv-inv executable evaluates on the model's final store of every compared run, a rejection being a C03 failure); that rest is decided by correspondence (re-check order fixed by the hook) and the oracle (corner instantiations of the implementation's own final signature); unify(subtype=False) has proved counterexamples "
+        "0 violations in 3.9 million such records found by search; Props/C03ResolvedElim.lean, C03e_*, 9: reduction to one clause, stability lemmas, and a verified monitor elimHoldsB - exact on resolved elimination records - that the tfv-inv executable evaluates on the model's final store of every compared run, a rejection being a C03 failure; Props/C03Wild.lean, C03w_*, 19: match3 on variable pairs characterised exactly, the variable/variable case of fulfil sound without any wildcard hypothesis, a decidable certificate subsStrictB replacing NoWild in the partial theorems, 588 wildcard runs certified in the kernel - that every reachable store passes the certificate is open); that rest is decided by correspondence (re-check order fixed by the hook) and the oracle (corner instantiations of the implementation's own final signature); unify(subtype=False) has proved counterexamples "
         "(C03_unify_plain_unsound_*), it is not reachable from Type.apply.",
         technique="Lean 4 proof (simultaneous induction on fuel over the mutual unifier, store invariants, valuation semantics) + model/implementation correspondence check",
         ref="6/C03"),
@@ -136,7 +136,7 @@ CLAIMED = {
         "C12_output_marked / C12_inputs_marked / C12_class, C12_inline_structure + C12_addExpr_shared_transparent (a tool's inputs denote the producers' whole expressions; the workflow graph is the "
         "graph of the inlined expression with sharing), C12_no_passthrough_link / _flat, C09_workflow_graph. C12_final_exprs / C12_expr_once(_passthrough) (the memo table under re-fixing without passthrough). Partial: typing inside the tools is inherited from the inference model through "
         "correspondence; 'each source gets the most general type acceptable to all its uses' is decided by an oracle (acceptable to every tool, not below an independently computed valid typing, no bound lost); "
-        "End to end (Props/C12Inline.lean, 9): C12_inline_trace_partial - a successful add_workflow IS a trace of one add_expr call per resource the target depends on, inputs before tools, each on the resource's tagged inlined expression (at that moment every inner tag has a node, so every consumption is a memo hit), followed by the links, one tf:input per source, tf:output and the class (C12_inline_marks: exactly those and nothing else); C12_tag_hides_body (add_expr cannot see below a tag that has a node: the quotient statement); the literal form 'one add_expr call on the inlined expression' is false of the model and the code - numbering, per-resource origins, intermediate types, unused inputs - (kernel-checked C12_inline_on_the_nose_fails; the general renaming between the two builds is evaluated on examples, not proved). "
+        "End to end (Props/C12Inline.lean, 9): C12_inline_trace_partial - a successful add_workflow IS a trace of one add_expr call per resource the target depends on, inputs before tools, each on the resource's tagged inlined expression (at that moment every inner tag has a node, so every consumption is a memo hit), followed by the links, one tf:input per source, tf:output and the class (C12_inline_marks: exactly those and nothing else); C12_tag_hides_body (add_expr cannot see below a tag that has a node: the quotient statement); the literal form 'one add_expr call on the inlined expression' is false of the model and the code - numbering, per-resource origins, intermediate types, unused inputs - (kernel-checked C12_inline_on_the_nose_fails; the general renaming between the two builds is evaluated on examples, not proved). Props/C12Iso.lean (18): add_expr and the per-resource step of add_workflow are equivariant under injective renamings of blank nodes in every configuration, sound isomorphism checker and search with kernel-checked isomorphisms on the examples, and three kernel-checked non-isomorphisms - intermediate types off, an unused input, and a function-valued resource applied by a later tool (known finding D32, replayed on the code, exhibited by a fixed workflow on every run). "
         "workflows whose sources have function types are not generated (aliasing of type objects is not modelled); the RDF (WorkflowGraph) front end is decided by the oracle (isomorphic to the in-memory form). Props/C12Order.lean: add_workflow depends on source_types only up to an explicit equivalence, hence C12_order_unannotated (every listing of a workflow without annotations gives the same graph, no hypothesis on source_types) and C12_order_checked (any pair of listings passing an evaluable test).",
         technique="Lean 4 proof (permutation invariance, memo-table invariants, step-sequence invariants of add_workflow) + model/implementation correspondence check (graph isomorphism)",
         ref="6/C12"),
@@ -151,7 +151,7 @@ CLAIMED = {
         "assertion/index/value error site, for any total expression builder), C17_parseType_consumes, C17_parseExpr_fuel_irrelevant (termination: the model's fuel "
         "never runs out, one token at least is consumed per step). Engine partial: instantiate/apply/unify/fix with constraints are tied by correspondence on "
         "constraint-heavy schemas and checked by the oracle (exception class in the declared families, 5 s bound per case); the interpreter recursion limit is outside "
-        "the model (known finding D11). Two assertion failures found on the unchanged tree (D25 under a re-check order, D29 with a bare-variable alternative) were repaired. Engine (Props/C17Engine.lean, C17e_*, 37): from every store with finite binding chains (all reachable stores) no function of the unifier, instantiate or apply returns an internal error, for any language, schema, arguments and fuel; the hypothesis is exact (on a cyclic store every assertion fires). Expression layer (Props/C17Expr.lean, 28): typed builder, parseTyped, fixExpr and calls never return an internal error from the empty state.",
+        "the model (known finding D11). Two assertion failures found on the unchanged tree (D25 under a re-check order, D29 with a bare-variable alternative) were repaired. Engine (Props/C17Engine.lean, C17e_*, 37): from every store with finite binding chains (all reachable stores) no function of the unifier, instantiate or apply returns an internal error, for any language, schema, arguments and fuel; the hypothesis is exact (on a cyclic store every assertion fires). Expression layer (Props/C17Expr.lean, 28): typed builder, parseTyped, fixExpr and calls never return an internal error from the empty state. Fuel (Props/C17Terminates.lean, C17t_*, 37): all twelve engine functions, instantiate and apply are monotone in the fuel without any hypothesis (a result other than out-of-fuel is the result for every larger fuel: nothing reported depends on engineFuel); termination with explicit fuel for variable-free types and for the constraint-free bound machine; unconditional termination is false of the model beyond its fuel depth (C17t_use_loops: the occurs check gives up at depth vars+64; the code raises RecursiveTypeError there - outside the model's claimed domain).",
         technique="Lean 4 proof (loop invariants on the parser stacks, suffix/fuel argument) + model/implementation correspondence check + declared-error oracle",
         ref="6/C17"),
  "C20": dict(text="Full for the repaired Bag.add: over any decidable partial order C20_union_specific/general (kept = minimal/maximal elements), "
